@@ -77,8 +77,8 @@ def join_tokens(toks: list[str], ws: int = 0) -> str:
     for i, t in enumerate(toks):
         if i > 0:
             prev = toks[i - 1]
-            if word(prev[-1]) and word(t[0]):
-                out += " "
+            if word(prev[-1]) and word(t[0]) and not (prev.isdigit() and t.isdigit()):
+                out += " "  # (two digit tokens of one xpath index may touch: every digit is a token of its own)
             elif prev == "$" or prev == "@":
                 pass  # keep sigils attached unless a blank is requested
             if ws >> (i - 1) & 1 and not out.endswith(" "):
